@@ -33,6 +33,43 @@ DataCmd(S, c, cmd) ==
         res == Exec1(S.dbs[i], S.now, cmd)
     IN  SRes([S EXCEPT !.dbs[i] = res.db], res.r, res.dv, res.rel, res.tol)
 
-Apply(S, c, cmd) == DataCmd(S, c, cmd)
+\* every stored object of database i, expired or not, counts for the emulator's DBSIZE
+DbSize(S, c, a) ==
+    LET i == S.conn[c].db
+        live == Live(S.dbs[i], S.now)
+    IN  IF Len(a) # 0 THEN SOk(S, EArg)
+        ELSE IF On("D_DBSIZE_COUNTS_EXPIRED_KEYS") /\ DOMAIN live # DOMAIN S.dbs[i]
+             THEN SRes(S, RInt(Cardinality(DOMAIN S.dbs[i])), {"D_DBSIZE_COUNTS_EXPIRED_KEYS"}, {}, {})
+        ELSE SOk(S, RInt(Cardinality(DOMAIN live)))
+
+Select(S, c, a) ==
+    LET n == ArgInt(a[1])
+    IN  IF Len(a) # 1 \/ ~n.ok THEN SOk(S, EArg)
+        ELSE IF n.v \notin DbIds THEN SOk(S, RErr("ERR"))
+        ELSE SOk([S EXCEPT !.conn[c].db = n.v], ROk)
+
+FlushOk(a) == Len(a) = 0 \/ (Len(a) = 1 /\ (Is(a[1], "SYNC") \/ Is(a[1], "ASYNC")))
+FlushDb(S, c, a) ==
+    IF ~FlushOk(a) THEN SOk(S, EArg) ELSE SOk([S EXCEPT !.dbs[S.conn[c].db] = EmptyDb], ROk)
+FlushAll(S, c, a) ==
+    IF ~FlushOk(a) THEN SOk(S, EArg) ELSE SOk([S EXCEPT !.dbs = EmptyDbs], ROk)
+
+Ping(S, a) == IF Len(a) = 0 THEN SOk(S, RSimple("PONG")) ELSE IF Len(a) = 1 THEN SOk(S, RBulk(a[1])) ELSE SOk(S, EArg)
+Echo(S, a) == IF Len(a) = 1 THEN SOk(S, RBulk(a[1])) ELSE SOk(S, EArg)
+
+\* one command outside MULTI (or executed by EXEC)
+Run(S, c, cmd) ==
+    LET nm == CmdName(cmd)
+        a == Tail(cmd)
+    IN  CASE nm \in DataNames -> DataCmd(S, c, cmd)
+          [] nm = "DBSIZE" -> DbSize(S, c, a)
+          [] nm = "SELECT" -> Select(S, c, a)
+          [] nm = "FLUSHDB" -> FlushDb(S, c, a)
+          [] nm = "FLUSHALL" -> FlushAll(S, c, a)
+          [] nm = "PING" -> Ping(S, a)
+          [] nm = "ECHO" -> Echo(S, a)
+          [] OTHER -> SOk(S, RErr("ERR"))
+
+Apply(S, c, cmd) == Run(S, c, cmd)
 
 =============================================================================
